@@ -334,7 +334,7 @@ func priorLookup(fn *ssa.Function, st *ssa.MapUpdate, m, key ssa.Value) *ssa.Loo
 	var found *ssa.Lookup
 	eachInstr(fn, func(_ *ssa.BasicBlock, in ssa.Instruction) {
 		if lk, ok := in.(*ssa.Lookup); ok {
-			if (lk.X == m || sameValue(lk.X, m)) && (lk.Index == key || sameValue(lk.Index, key) || canonVal(lk.Index) == canonVal(key)) && instrDominates(lk, st) {
+			if (lk.X == m || sameValue(lk.X, m)) && (lk.Index == key || sameValue(lk.Index, key) || canonVal(lk.Index) == canonVal(key) || sameLiteral(lk.Index, key)) && instrDominates(lk, st) {
 				found = lk
 			}
 		}
@@ -408,4 +408,43 @@ func checkMemoSites(c *Ctx, p *Prog, rule string, sites []memoSite, want func(me
 
 func shortName(s string) string {
 	return strings.ReplaceAll(s, modPath+"/", "")
+}
+
+// sameLiteral: two composite-literal keys (term{q.Key, q.Lit} written twice) with pairwise the same field values.
+func sameLiteral(a, b ssa.Value) bool {
+	la, ok1 := a.(*ssa.UnOp)
+	lb, ok2 := b.(*ssa.UnOp)
+	if !ok1 || !ok2 || la.Op != token.MUL || lb.Op != token.MUL {
+		return false
+	}
+	aa, ok1 := la.X.(*ssa.Alloc)
+	ab, ok2 := lb.X.(*ssa.Alloc)
+	if !ok1 || !ok2 || !types.Identical(aa.Type(), ab.Type()) {
+		return false
+	}
+	fields := func(al *ssa.Alloc) map[*types.Var]ssa.Value {
+		out := map[*types.Var]ssa.Value{}
+		for _, r := range *al.Referrers() {
+			if fa, ok := r.(*ssa.FieldAddr); ok {
+				f, _ := fieldOfAddr(fa)
+				for _, r2 := range *fa.Referrers() {
+					if st, ok := r2.(*ssa.Store); ok && st.Addr == ssa.Value(fa) {
+						out[f] = st.Val
+					}
+				}
+			}
+		}
+		return out
+	}
+	fa, fb := fields(aa), fields(ab)
+	if len(fa) == 0 || len(fa) != len(fb) {
+		return false
+	}
+	for f, v := range fa {
+		w, ok := fb[f]
+		if !ok || !(v == w || sameValue(v, w) || canonVal(v) == canonVal(w)) {
+			return false
+		}
+	}
+	return true
 }
